@@ -367,6 +367,13 @@ def m_starts_with(ctx, args, callee):
         if pc is None:
             raise Unmodelled('starts_with(symbolic char)')
         p = Str(chr(pc))
+    if isinstance(p, (FnItem, Closure)):
+        # a predicate on the first character
+        if s.s is None:
+            raise Unmodelled('starts_with(predicate) on a symbolic string')
+        if not s.s:
+            return BoolVal(False)
+        return ctx.call_closure(p, [BitVecVal(ord(s.s[0]), 32)]) if isinstance(p, Closure) else ctx.call(p.text, [BitVecVal(ord(s.s[0]), 32)])
     p = as_str(ctx, p)
     if s.term is not None or p.term is not None:
         return z3.PrefixOf(p.z3term(), s.z3term())
@@ -418,6 +425,15 @@ def m_contains(ctx, args, callee):
     if s.term is not None or p.term is not None:
         return z3.Contains(s.z3term(), p.z3term())
     return lift_bool(ctx, lambda a, b: b in a, s, p)
+
+
+@model(r'^(core::)?(char::methods::)?<impl char>::(is_ascii_digit|is_ascii_alphabetic|is_ascii_alphanumeric|is_ascii_whitespace|is_ascii_uppercase|is_ascii_lowercase|is_ascii_punctuation)$|^char::(is_ascii_digit|is_ascii_alphabetic|is_ascii_alphanumeric|is_ascii_whitespace)$')
+def m_char_ascii_class(ctx, args, callee):
+    c = ctx.deref(args[0])
+    k = re.search(r'is_ascii_(\w+)', callee).group(1)
+    rng = {'digit': [(48, 57)], 'alphabetic': [(65, 90), (97, 122)], 'alphanumeric': [(48, 57), (65, 90), (97, 122)], 'uppercase': [(65, 90)], 'lowercase': [(97, 122)],
+           'whitespace': [(9, 10), (12, 13), (32, 32)], 'punctuation': [(33, 47), (58, 64), (91, 96), (123, 126)]}[k]
+    return simplify(Or([And(z3.UGE(c, BitVecVal(lo, c.size())), z3.ULE(c, BitVecVal(hi, c.size()))) for lo, hi in rng]))
 
 
 @model(r'^(core::)?str::<impl str>::(find|rfind)$')
